@@ -157,6 +157,22 @@ def _compiled(p: str) -> Any:
     return re.compile(p, re.DOTALL) if False else re.compile(p)
 
 
+def rx_alphabet_of(p: str) -> str:
+    """Characters a word of the regex can contain, read off the pattern text: literal letters/digits/non-ASCII
+    characters, and the first three characters of every range (x-y)."""
+    import re as _re
+
+    out: list[str] = []
+    for lo, hi in _re.findall(r"(\w)-(\w)", p):
+        for c in range(ord(lo), min(ord(hi), ord(lo) + 2) + 1):
+            out.append(chr(c))
+    body = _re.sub(r"\{[0-9,]*\}", "", p)
+    for ch in body:
+        if ch.isalnum() or ord(ch) > 127:
+            out.append(ch)
+    return "".join(dict.fromkeys(out))[:5]
+
+
 def rx_fullmatch(p: str, s: str) -> bool:
     return _compiled(p).fullmatch(s) is not None
 
@@ -461,6 +477,7 @@ class Sem:
         raise ValueError(k)
 
     def _rx_words(self, p: str, L: int, alpha: str) -> list[str]:
+        alpha = "".join(sorted(set(alpha) | set(rx_alphabet_of(p))))
         key = (p, L, alpha, self.mode)
         if key in _RX_CACHE:
             return _RX_CACHE[key]
